@@ -537,14 +537,28 @@ func (f *fakeRunnable) CheckUpkeeps(ctx context.Context, ps ...ocr2keepers.Upkee
 // recEncoder records what Reports hands to the encoder; the bytes are the
 // simulator's JSON encoding so that Extract can invert it.
 type recEncoder struct {
-	mu    sync.Mutex
-	calls [][]ocr2keepers.CheckResult
+	mu     sync.Mutex
+	calls  [][]ocr2keepers.CheckResult
+	failAt int // the failAt-th Encode call since the last Take fails (0 = none)
+	n      int
+}
+
+// FailAt arms the encoder: its k-th call from now on returns an error (the call is still recorded).
+func (e *recEncoder) FailAt(k int) {
+	e.mu.Lock()
+	e.failAt, e.n = k, 0
+	e.mu.Unlock()
 }
 
 func (e *recEncoder) Encode(rs ...ocr2keepers.CheckResult) ([]byte, error) {
 	e.mu.Lock()
 	e.calls = append(e.calls, append([]ocr2keepers.CheckResult(nil), rs...))
+	e.n++
+	fail := e.failAt > 0 && e.n == e.failAt
 	e.mu.Unlock()
+	if fail {
+		return nil, fmt.Errorf("report encoder failed on purpose (call %d)", e.failAt)
+	}
 	return json.Marshal(rs)
 }
 func (e *recEncoder) Extract(b []byte) ([]ocr2keepers.ReportedUpkeep, error) {
@@ -563,6 +577,7 @@ func (e *recEncoder) Take() [][]ocr2keepers.CheckResult {
 	defer e.mu.Unlock()
 	c := e.calls
 	e.calls = nil
+	e.failAt, e.n = 0, 0
 	return c
 }
 
